@@ -189,16 +189,21 @@ class Angle(Sort):
 
     shape = (1, 1)
 
-    def __init__(self, name, k=1, lo=-3.0, hi=3.0):
-        self.name, self.k, self.lo, self.hi = name, k, lo, hi
+    def __init__(self, name, k=1, lo=-3.0, hi=3.0, cos_positive=False):
+        """cos_positive: requires the base angle in (-pi/2, pi/2) (cos > 0)"""
+        self.name, self.k, self.lo, self.hi, self.cos_positive = name, k, lo, hi, cos_positive
 
     def bind(self, low):
         R = low.R
         phi = R.gen(f"phi_{self.name}")
         s = R.gen(f"s_{self.name}")
-        c = R.gen(f"c_{self.name}")
+        c = R.gen(f"c_{self.name}", nonneg=self.cos_positive)
+        if self.cos_positive:
+            R.positive = getattr(R, "positive", set())
+            R.positive.add(R.index[f"c_{self.name}"])
         R.add_relation(R.index[f"s_{self.name}"], 2, R.const(1) - c * c)
         low.register_angle(R.index[f"phi_{self.name}"], s, c)
+        low.seed_root(R.reduce(s.raw_mul(s)), low.abs_poly(s))
         self.phi, self.s, self.c = phi, s, c
         return {(self.name, 0, 0): Frac.of(R, phi.scale(self.k))}
 
